@@ -246,6 +246,25 @@ where
         Ok(())
     }
 
+    /// Removes the vring's current kick fd, if any, from the epoll instance of its worker.
+    fn unregister_vring_kick(&self, vring: &T::Vring, index: u8) {
+        let vring_state = vring.get_ref();
+        if let Some(fd) = vring_state.get_kick() {
+            for (thread_index, queues_mask) in self.queues_per_thread.iter().enumerate() {
+                let shifted_queues_mask = queues_mask >> index;
+                if shifted_queues_mask & 1u64 == 1u64 {
+                    let evt_idx = queues_mask.count_ones() - shifted_queues_mask.count_ones();
+                    let _ = self.handlers[thread_index].unregister_event(
+                        fd.as_raw_fd(),
+                        EventSet::IN,
+                        u64::from(evt_idx),
+                    );
+                    break;
+                }
+            }
+        }
+    }
+
     /// Helper to check if VirtioFeature enabled
     fn check_feature(&self, feat: VhostUserVirtioFeatures) -> VhostUserResult<()> {
         if self.acked_features & feat.bits() != 0 {
@@ -485,6 +504,13 @@ where
             .get(index as usize)
             .ok_or(VhostUserError::InvalidParam)?;
 
+        // If the vring is already started, its current kick fd may be registered with the worker's
+        // epoll instance: remove it before it gets closed, the new one is registered below.
+        let started = vring.get_ref().get_queue().ready();
+        if started {
+            self.unregister_vring_kick(vring, index);
+        }
+
         // SAFETY: EventFd requires that it has sole ownership of its fd. So
         // does File, so this is safe.
         // Ideally, we'd have a generic way to refer to a uniquely-owned fd,
@@ -495,6 +521,8 @@ where
             self.initialize_vring(vring, index)?;
             #[cfg(feature = "verif-hooks")]
             vhost::verif::hold("c.epoll", index as u64);
+        } else if started {
+            self.update_vring_registration(vring, index)?;
         }
 
         Ok(())
